@@ -65,6 +65,8 @@ def configs(tier):
     out.append(bmm.cfg_make(size=(2, 2), levy='space-time', cache_size=2, t0=1., t1=3.))
     out.append(bmm.cfg_make(size=(2, 2), levy='space-time', cache_size=2, tol=0.1, halfway=True, t0=-1., t1=1.))
     out.append(bmm.cfg_make(wrapper='tree', size=(2, 2), tol=0.01, t0=-1., t1=1.))
+    for levy in levys:
+        out.append(bmm.cfg_make(size=(2, 2), levy=levy, cache_size=2, dtype='float32'))
     return out
 
 
